@@ -38,9 +38,11 @@ type Let struct {
 }
 
 type LoopSpec struct {
+	Assigns   []*Clause
 	Invs      []*Clause
 	Decreases *Clause
 	Lets      []*Let
+	ELets     []*Let // evaluated once at loop entry (before the havoc)
 }
 
 type CallWith struct {
@@ -60,6 +62,7 @@ type Contract struct {
 	OnPanic   []*Clause
 	Assigns   []*Clause
 	Lets      []*Let
+	PLets     []*Let // evaluated in the post-state (may mention result)
 	Loops     map[int]*LoopSpec
 	Ghost     []QVar
 	Decreases *Clause
@@ -183,7 +186,11 @@ func loadContracts(path string) (*ContractFile, error) {
 			case "on_panic":
 				cur.OnPanic = append(cur.OnPanic, c)
 			case "assigns":
-				cur.Assigns = append(cur.Assigns, c)
+				if curLoop != nil {
+					curLoop.Assigns = append(curLoop.Assigns, c)
+				} else {
+					cur.Assigns = append(cur.Assigns, c)
+				}
 			case "panics_iff":
 				cur.PanicsIff = c
 			case "panics_if":
@@ -200,7 +207,7 @@ func loadContracts(path string) (*ContractFile, error) {
 					cur.Decreases = c
 				}
 			}
-		case "let":
+		case "let", "plet", "elet":
 			parts := strings.SplitN(rest, ":=", 2)
 			if len(parts) != 2 {
 				return nil, fmt.Errorf("contracts:%d: bad let", ln)
@@ -210,7 +217,11 @@ func loadContracts(path string) (*ContractFile, error) {
 				return nil, fmt.Errorf("contracts:%d: %v", ln, err)
 			}
 			lt := &Let{Name: strings.TrimSpace(parts[0]), E: e, Line: ln}
-			if curLoop != nil {
+			if kw == "plet" {
+				cur.PLets = append(cur.PLets, lt)
+			} else if kw == "elet" && curLoop != nil {
+				curLoop.ELets = append(curLoop.ELets, lt)
+			} else if curLoop != nil {
 				curLoop.Lets = append(curLoop.Lets, lt)
 			} else {
 				cur.Lets = append(cur.Lets, lt)
